@@ -286,6 +286,31 @@ static int q_walk(ctx_t *c, uint64_t *out)
 
 	ret = sqfs_dir_reader_get_full_hierarchy(c->dr, c->idtbl, NULL, 0, &root);
 	if (ret == 0) {
+		/* path resolution for the visible part of the first names, from exactly sized heap strings */
+		const sqfs_tree_node_t *ch, *gc;
+		unsigned cnt = 0;
+		for (ch = root->children; ch != NULL && cnt < 40; ch = ch->next, ++cnt) {
+			size_t l1 = strlen((const char *)ch->name);
+			char *pth = malloc(l1 + 2);
+			sqfs_tree_node_t *sub = NULL;
+			sqfs_u64 ref;
+			pth[0] = '/'; memcpy(pth + 1, ch->name, l1 + 1);
+			(void)sqfs_dir_reader_resolve_path(c->dr, pth, NULL, &ref);
+			(void)sqfs_dir_reader_resolve_path(c->dr, pth + 1, NULL, &ref);
+			if (sqfs_dir_reader_get_full_hierarchy(c->dr, c->idtbl, pth, SQFS_TREE_NO_RECURSE, &sub) == 0)
+				sqfs_dir_tree_destroy(sub);
+			free(pth);
+			gc = ch->children;
+			if (gc != NULL) {
+				size_t l2 = strlen((const char *)gc->name);
+				pth = malloc(l1 + l2 + 3);
+				pth[0] = '/'; memcpy(pth + 1, ch->name, l1); pth[1 + l1] = '/'; memcpy(pth + 2 + l1, gc->name, l2 + 1);
+				(void)sqfs_dir_reader_resolve_path(c->dr, pth, NULL, &ref);
+				if (sqfs_dir_reader_get_full_hierarchy(c->dr, c->idtbl, pth, SQFS_TREE_NO_RECURSE, &sub) == 0)
+					sqfs_dir_tree_destroy(sub);
+				free(pth);
+			}
+		}
 		walk_tree(c, root, 0);
 		sqfs_dir_tree_destroy(root);
 	}
